@@ -302,6 +302,8 @@ func runC09(c *hlib.Ctx) {
 	runC09Mesh(c)
 	runC09Mesh2D(c)
 	runC09Fresh(c)
+	runC09Fresh2(c)
+	runC09Fresh2D(c)
 }
 
 // ---------------------------------------------------------------------------
